@@ -414,8 +414,46 @@ fn replay<C: Check>(check: &C, path: &Path) -> i32 {
         }
     };
     let mut obs = Obs::default();
-    let mut vs = match execute_guarded(check, &sc, &mut obs) {
-        Guarded::Done(v) => v,
+    // (the replay of a recorded hang is watched the same way as a tier run: CPU time of the executing thread)
+    let tid = AtomicU64::new(0);
+    let tid = &tid;
+    let watched = std::thread::scope(|s| {
+        let t0 = Instant::now();
+        let h = s.spawn(|| {
+            tid.store(own_tid(), Ordering::Relaxed);
+            execute_guarded(check, &sc, &mut obs)
+        });
+        let limit_ms = check.watchdog_secs().saturating_mul(1000);
+        let mut base: Option<u64> = None;
+        while !h.is_finished() {
+            std::thread::sleep(std::time::Duration::from_millis(100));
+            let cpu = thread_cpu_ms(tid.load(Ordering::Relaxed));
+            if base.is_none() {
+                base = cpu;
+            }
+            let wall = t0.elapsed().as_millis() as u64;
+            let hang = match (base, cpu) {
+                (Some(a), Some(b)) => b.saturating_sub(a) > limit_ms || wall > limit_ms.saturating_mul(WALL_FACTOR),
+                _ => wall > limit_ms,
+            };
+            if hang {
+                println!(
+                    "REPLAY property={} clause=returns key=hang message=the recorded run did not return: more than {} s of CPU time, or blocked for more than {} s",
+                    check.id(),
+                    check.watchdog_secs(),
+                    check.watchdog_secs().saturating_mul(WALL_FACTOR)
+                );
+                if check.hang_is_violation() {
+                    println!("VIOLATION property={} replay={}", check.id(), path.display());
+                    std::process::exit(1);
+                }
+                std::process::exit(2);
+            }
+        }
+        h.join()
+    });
+    let mut vs = match watched {
+        Ok(Guarded::Done(v)) => v,
         _ => {
             eprintln!("HARNESS-ERROR: replay panicked in the harness");
             return 2;
@@ -689,21 +727,41 @@ fn run_tier<C: Check>(check: &C, tier: Tier) -> i32 {
     const STOP_AFTER_VIOLATION_EVENTS: u64 = 3000;
     let outs: Mutex<Vec<WorkerOut<C::Scenario>>> = Mutex::new(Vec::new());
     let chunk: u64 = check.chunk().max(1);
-    // heartbeat per worker: (run index + 1, start in ms since t0); 0 = idle
-    let beats: Vec<(AtomicU64, AtomicU64)> = (0..threads).map(|_| (AtomicU64::new(0), AtomicU64::new(0))).collect();
+    // heartbeat per worker: (run index + 1, start in ms since t0, kernel thread id); 0 = idle
+    let beats: Vec<(AtomicU64, AtomicU64, AtomicU64)> =
+        (0..threads).map(|_| (AtomicU64::new(0), AtomicU64::new(0), AtomicU64::new(0))).collect();
     let done = AtomicBool::new(false);
 
     std::thread::scope(|s| {
         // watchdog
+        // The limit is on the CPU time the worker thread spent in the run (a run that does not terminate keeps
+        // consuming it; a run that is merely starved on an overloaded machine does not), with a much longer
+        // wall-clock limit for runs that block without consuming CPU time. Where the kernel does not report
+        // per-thread CPU time the wall clock decides alone.
         s.spawn(|| {
             let limit_ms = check.watchdog_secs().saturating_mul(1000);
+            // per worker: (run index + 1 last seen, CPU ms of the worker thread when it was first seen)
+            let mut seen: Vec<(u64, Option<u64>)> = vec![(0, None); beats.len()];
             while !done.load(Ordering::Relaxed) {
                 std::thread::sleep(std::time::Duration::from_millis(200));
                 let now = t0.elapsed().as_millis() as u64;
-                for (run1, start) in &beats {
+                for (wi, (run1, start, tid)) in beats.iter().enumerate() {
                     let r = run1.load(Ordering::Relaxed);
-                    let st = start.load(Ordering::Relaxed);
-                    if r != 0 && now.saturating_sub(st) > limit_ms && run1.load(Ordering::Relaxed) == r {
+                    if r == 0 {
+                        seen[wi] = (0, None);
+                        continue;
+                    }
+                    let cpu_now = thread_cpu_ms(tid.load(Ordering::Relaxed));
+                    if seen[wi].0 != r {
+                        seen[wi] = (r, cpu_now);
+                        continue;
+                    }
+                    let wall = now.saturating_sub(start.load(Ordering::Relaxed));
+                    let hang = match (seen[wi].1, cpu_now) {
+                        (Some(a), Some(b)) => b.saturating_sub(a) > limit_ms || wall > limit_ms.saturating_mul(WALL_FACTOR),
+                        _ => wall > limit_ms,
+                    };
+                    if hang && run1.load(Ordering::Relaxed) == r {
                         report_hang(check, &root, seed, tier, r - 1);
                     }
                 }
@@ -727,6 +785,7 @@ fn run_tier<C: Check>(check: &C, tier: Tier) -> i32 {
                     violations_total: 0,
                 };
                 let mut my_chunks: Vec<u64> = Vec::new();
+                beats[wi].2.store(own_tid(), Ordering::Relaxed);
                 'outer: loop {
                     let start = next.fetch_add(chunk, Ordering::Relaxed);
                     if start >= total || abort.load(Ordering::Relaxed) || viol_events.load(Ordering::Relaxed) > STOP_AFTER_VIOLATION_EVENTS {
@@ -1118,6 +1177,26 @@ fn run_tier<C: Check>(check: &C, tier: Tier) -> i32 {
     }
 }
 
+/// Wall-clock limit = this many times the CPU-time limit (runs that block without consuming CPU time).
+const WALL_FACTOR: u64 = 8;
+
+/// Kernel thread id of the calling thread (0 if it cannot be determined).
+fn own_tid() -> u64 {
+    std::fs::read_link("/proc/thread-self")
+        .ok()
+        .and_then(|p| p.file_name().and_then(|f| f.to_str()).and_then(|t| t.parse().ok()))
+        .unwrap_or(0)
+}
+
+/// CPU time (ms) a thread of this process has consumed so far, from /proc/self/task/<tid>/schedstat.
+fn thread_cpu_ms(tid: u64) -> Option<u64> {
+    if tid == 0 {
+        return None;
+    }
+    let s = std::fs::read_to_string(format!("/proc/self/task/{tid}/schedstat")).ok()?;
+    s.split_whitespace().next()?.parse::<u64>().ok().map(|ns| ns / 1_000_000)
+}
+
 /// A run did not return within the watchdog: regenerate its scenario (a pure
 /// function of seed and index), write it as a replay file, report and exit.
 fn report_hang<C: Check>(check: &C, root: &Path, seed: u64, tier: Tier, run: u64) -> ! {
@@ -1128,7 +1207,11 @@ fn report_hang<C: Check>(check: &C, root: &Path, seed: u64, tier: Tier, run: u64
         property: check.id().to_string(),
         clause: "returns".into(),
         key: "hang".into(),
-        message: format!("run {run} did not return within {} s", check.watchdog_secs()),
+        message: format!(
+            "run {run} did not return: it used more than {} s of CPU time (or blocked for more than {} s)",
+            check.watchdog_secs(),
+            check.watchdog_secs().saturating_mul(WALL_FACTOR)
+        ),
         verif_seed: seed,
         run,
         tier: tier.name().to_string(),
@@ -1140,7 +1223,11 @@ fn report_hang<C: Check>(check: &C, root: &Path, seed: u64, tier: Tier, run: u64
     let _ = std::fs::create_dir_all(root.join("replays"));
     let _ = std::fs::write(&file, serde_json::to_string_pretty(&rf).unwrap_or_default());
     if check.hang_is_violation() {
-        println!("  run {run} did not return within {} s (not minimised)", check.watchdog_secs());
+        println!(
+            "  run {run} did not return: more than {} s of CPU time, or blocked for more than {} s (not minimised)",
+            check.watchdog_secs(),
+            check.watchdog_secs().saturating_mul(WALL_FACTOR)
+        );
         println!("VIOLATION property={} replay={}", check.id(), file.display());
         std::process::exit(1);
     }
